@@ -13,6 +13,13 @@
  *   img lsopen <slot> <ref>    -> st=<..>   open a directory on the long-lived reader set, cursor kept in <slot>
  *   img lsnext <slot>          -> one sqfs_dir_reader_read with that cursor on the long-lived set || on a fresh set with a copy
  *   img reload                 -> sqfs_data_reader_load_fragment_table again on the long-lived data reader
+ *   img resuper <field>=<u64> ...  -> st=ok xattr=<..> ids=<..> frag=<..>
+ *       re-load on LIVE objects: the fields of the super block (noxattr, nofrag = flag bits; xattr_start, id_start, id_count,
+ *       frag_start, frag_count, bytes_used; reset=1 restores the image's own super) are changed and sqfs_xattr_reader_load,
+ *       sqfs_id_table_read and sqfs_data_reader_load_fragment_table are called again on the long-lived xattr reader, id table
+ *       and data reader.  From then on every query compares them with objects created fresh and loaded ONCE with the changed
+ *       super (a reader whose load failed is kept and queried on both sides).  The directory reader has no re-load call: on
+ *       both sides it is always created from the image's own super.
  */
 #include "config.h"
 #include "sqfs/predef.h"
@@ -44,6 +51,8 @@ typedef struct {
 } rset_t;
 
 static sqfs_super_t g_super;
+static sqfs_super_t g_super0;	/* the image's own super: what every directory reader is created from */
+static int g_keep;		/* after `img resuper`: objects whose load failed are kept and queried */
 static int g_super_ok;
 static rset_t g_hist;
 static int g_hist_ok;
@@ -72,16 +81,16 @@ static int rset_create(rset_t *r)
 	r->st_cmp = sqfs_compressor_create(&cfg, &r->cmp);
 	if (r->st_cmp) { r->cmp = NULL; return -1; }
 	r->st_xr = 1; r->st_idt = 1; r->st_frag = 1;
-	if (!(g_super.flags & SQFS_FLAG_NO_XATTRS)) {
+	if (g_keep || !(g_super.flags & SQFS_FLAG_NO_XATTRS)) {
 		r->xr = sqfs_xattr_reader_create(0);
 		if (!r->xr) abort();
 		r->st_xr = sqfs_xattr_reader_load(r->xr, &g_super, file, r->cmp);
-		if (r->st_xr) r->xr = sqfs_drop(r->xr);
+		if (r->st_xr && !g_keep) r->xr = sqfs_drop(r->xr);
 	}
 	r->idt = sqfs_id_table_create(0);
 	if (!r->idt) abort();
 	r->st_idt = sqfs_id_table_read(r->idt, file, &g_super, r->cmp);
-	r->dr = sqfs_dir_reader_create(&g_super, r->cmp, file, 0);
+	r->dr = sqfs_dir_reader_create(&g_super0, r->cmp, file, 0);
 	if (!r->dr) abort();
 	r->data = sqfs_data_reader_create(file, g_super.block_size, r->cmp, 0);
 	if (!r->data) abort();
@@ -288,7 +297,7 @@ static void q_id(rset_t *r, sqfs_u64 idx)
 {
 	sqfs_u32 id = 0;
 	int st;
-	if (r->st_idt) { printf("noids"); return; }
+	if (r->st_idt && !g_keep) { printf("noids"); return; }
 	st = sqfs_id_table_index_to_id(r->idt, (sqfs_u16)idx, &id);
 	if (st) printf("st=%d", st); else printf("st=0 id=%u", id);
 }
@@ -381,7 +390,7 @@ void h_c10_img_reset(void)
 {
 	int i;
 	if (g_hist_ok) rset_destroy(&g_hist);
-	g_hist_ok = 0; g_super_ok = 0;
+	g_hist_ok = 0; g_super_ok = 0; g_keep = 0;
 	for (i = 0; i < NLS; ++i) g_ls_open[i] = 0;
 }
 
@@ -393,6 +402,7 @@ void op_image(char **w, int nw)
 		if (g_hist_ok) { rset_destroy(&g_hist); g_hist_ok = 0; }
 		st = sqfs_super_read(&g_super, h_c10_memfile());
 		g_super_ok = (st == 0);
+		g_super0 = g_super; g_keep = 0;
 		if (st) { printf("st=super:%d\n", st); return; }
 		rset_create(&g_hist);
 		g_hist_ok = 1;
@@ -440,6 +450,36 @@ void op_image(char **w, int nw)
 		if (f.cmp) ls_next(&f, &copy); else printf("nocodec");
 		rset_destroy(&f);
 		putchar('\n');
+		return;
+	}
+	if (!strcmp(w[1], "resuper") && nw >= 3) {
+		sqfs_super_t s = g_super;
+		sqfs_file_t *file = h_c10_memfile();
+		int i, sx, si, sf;
+		for (i = 2; i < nw; ++i) {
+			char *eq = strchr(w[i], '=');
+			sqfs_u64 v;
+			if (!eq || pu64i(eq + 1, &v)) { puts("bad-op"); return; }
+			*eq = '\0';
+			if (!strcmp(w[i], "reset")) s = g_super0;
+			else if (!strcmp(w[i], "noxattr")) s.flags = v ? (s.flags | SQFS_FLAG_NO_XATTRS) : (s.flags & ~SQFS_FLAG_NO_XATTRS);
+			else if (!strcmp(w[i], "nofrag")) s.flags = v ? (s.flags | SQFS_FLAG_NO_FRAGMENTS) : (s.flags & ~SQFS_FLAG_NO_FRAGMENTS);
+			else if (!strcmp(w[i], "xattr_start")) s.xattr_id_table_start = v;
+			else if (!strcmp(w[i], "id_start")) s.id_table_start = v;
+			else if (!strcmp(w[i], "id_count")) s.id_count = (sqfs_u16)v;
+			else if (!strcmp(w[i], "frag_start")) s.fragment_table_start = v;
+			else if (!strcmp(w[i], "frag_count")) s.fragment_entry_count = (sqfs_u32)v;
+			else if (!strcmp(w[i], "bytes_used")) s.bytes_used = v;
+			else { puts("bad-op"); return; }
+		}
+		g_super = s;
+		g_keep = 1;
+		if (!g_hist.xr) { g_hist.xr = sqfs_xattr_reader_create(0); if (!g_hist.xr) abort(); }
+		sx = sqfs_xattr_reader_load(g_hist.xr, &g_super, file, g_hist.cmp);
+		si = sqfs_id_table_read(g_hist.idt, file, &g_super, g_hist.cmp);
+		sf = sqfs_data_reader_load_fragment_table(g_hist.data, &g_super);
+		g_hist.st_xr = sx; g_hist.st_idt = si; g_hist.st_frag = sf;
+		printf("st=ok xattr=%d ids=%d frag=%d\n", sx, si, sf);
 		return;
 	}
 	if (!strcmp(w[1], "reload") && nw == 2) {
